@@ -13,7 +13,7 @@ def extra(run, cases, oracle, tier):
     for ci, c in enumerate(cases, start=1):
         if oracle.get(ci) is None or ci > (4 if tier == "quick" else len(cases)):
             continue
-        rel, idx, F = GR.build_instance(c, oracle[ci], 4)
+        rel, idx, F = GR.build_instance(c, oracle[ci], 4, opts={"vacuum": True, "_noT": True} if c.get("vacuum") else None)
         n = rel["nup4"][(...,) + idx]
         a = rel["accelerationdown4"][(...,) + idx]
         sh = rel["sheardown4"][(...,) + idx]
